@@ -862,8 +862,8 @@ def netsvc_cfg(cidr, n):
             'events': None}
 
 
-WORLDS = {'vip': VipWorld, 'vips': VipPoolsWorld, 'rule': RuleWorld, 'spec': SpecWorld,
-          'netsvc': NetSvcWorld}
+WORLDS = {'vip': VipWorld, 'vips': VipPoolsWorld, 'rule': RuleWorld,
+          'spec': SpecWorld, 'netsvc': NetSvcWorld}
 
 
 class Spec(statex.Spec):
